@@ -177,6 +177,8 @@ func WriteFindings(commits map[string]string) error {
 			rawJSON(&C20Case{Cat: "ivalue-needed", Form: "new(I), func() I { _ = 1; return C{} }()", Ctx: "needed", Import: "plain"})),
 		fixed("D27", "C06", "D27", "func InitB(NewBar Other) Foo { wire.Build(NewFoo, NewBar) } after an injector that uses the function NewBar: the parameter was mistaken for the package-level function (object cache keyed by name) and the missing *Bar silently filled by a provider the build list does not name", "C06 program the documented rules reject was accepted", rawJSON(specD27())),
 		fixed("D28", "C12", "D28", "wire.Struct(new(S), \"*\") for struct{ A FA; _ FB }: the blank field was treated as an input (a provider for FB was demanded; with one, S{A: a, _: b} was emitted, which does not compile), and \"_\" was accepted as a field name by wire.Struct and wire.FieldsOf", "C12 program the documented rules accept was rejected", rawJSON(specD28())),
+		fixed("D29", "C17", "D29", "wire gen ./... / wire diff ./... in a module with a directory that only holds _test.go files: \"no files to derive output directory from\", generate failed (exit 1 / 2) although every package with injectors generated", "C17 exit status differs from the command-line contract",
+			rawJSON(&CLICase{Pkgs: []cliPkg{{Name: "pa", Kind: "ok"}}, Steps: []CLIStep{{Op: "gen"}, {Op: "diff"}}})),
 		known("D15", "C20", "injector body with extra statements: the invalid-injector diagnostic of `wire gen` carries no file:line:col position (its text is pinned by golden file InvalidInjector of the repository's suite, so a repair would change an expected output)", "C20 failure without a positioned diagnostic",
 			rawJSON(&C20Case{Cat: "injector", Form: "func Inject() S { y := 1; _ = y; wire.Build(NewS); return S{} }", Import: "plain"})),
 		known("D20", "C13", "wire.InterfaceValue(new(I), f()) is accepted and the call is copied into the generated package-level variable (the repository's golden test InterfaceValue uses strings.NewReader(...) and pins acceptance)", "C13",
